@@ -1,5 +1,7 @@
 import HavocVerif.Lemmas.Queue
 import HavocVerif.Lemmas.Chunks
+import HavocVerif.Lemmas.QueueConc
+import HavocVerif.Model.Locks
 /-
   C04 — Every queued task is delivered exactly once, in order, in bounded batches.
   (Sequential histories = all interleavings of atomic enqueue / check-in / clear
@@ -82,6 +84,65 @@ theorem chunks_same_id (chunk fileId : Nat) (file : Bytes) (reqs : List Nat) :
   simp only [memFileJobs, List.mem_map] at hj
   obtain ⟨⟨c, i⟩, _, rfl⟩ := hj
   simp
+
+/-! ## concurrency -/
+
+/-- **Exactly once and in order under every schedule.**  Threads (any number of producers, the
+    checking-in listener, …) run their own programs; `sched` is an arbitrary schedule of their
+    atomic operations.  Then what has been handed out, followed by what is still queued, is the
+    list of queued tasks in the order the queueing took effect, and the tasks of every producer
+    appear in it exactly as that producer queued them. -/
+theorem fifo_all_schedules {γ : Type} (size : Nat × γ → Nat) (ts : List (List (QOp (Nat × γ))))
+    (sched : List Nat) (hclr : ∀ t ∈ ts, QOp.clear ∉ t) (htag : WellTagged ts) :
+    let s := qrun size (interleave ts sched)
+    s.delivered ++ s.queue = enqueuedOf (interleave ts sched) ∧
+    ∀ i, (s.delivered ++ s.queue).filter (fun x => x.1 == i) = enqueuedOf (executed ts sched i) := by
+  have hops : ∀ op ∈ interleave ts sched, op ≠ QOp.clear := by
+    intro op hop e
+    obtain ⟨t, ht, hin⟩ := mem_interleave ts sched op hop
+    exact hclr t ht (e ▸ hin)
+  have h1 := fifo_refinement size (interleave ts sched) hops
+  rw [qrun_enqueued] at h1
+  refine ⟨h1, fun i => ?_⟩
+  rw [h1]; exact enq_filter ts sched i htag
+
+open Gen.LockFacts in
+/-- (regenerated from the source) every access to an agent's job queue and to its request-id record,
+    in every package that touches them, happens with the agent's `JobMtx` held - so each queue
+    operation is one atomic step of the schedules above -/
+theorem queue_accesses_guarded :
+    unguardedIn ["agent", "handlers", "server", "service", "socks"] ["JobQueue", "Tasks"] = [] := by decide
+
+/-- … and no function returns with a mutex held -/
+theorem agent_locks_balanced : unbalancedIn ["agent", "handlers"] = [] := by decide
+
+/-! ### the lock is necessary: without it there are schedules that lose or repeat a task -/
+
+/-- two producers load the same header; the second store overwrites the first: a task is lost -/
+theorem unlocked_lost_update :
+    let s := frun (α := Nat) [.load 1, .load 2, .storeAppend 1 10, .storeAppend 2 20]
+    s.enqueued = [10, 20] ∧ s.delivered ++ s.cell = [20] := by decide
+
+/-- a producer's store after the listener's take brings a delivered task back: it goes out twice -/
+theorem unlocked_duplicate :
+    let s := frun (α := Nat) [.load 0, .storeAppend 0 7, .load 1, .load 9, .storeTake 9 1, .storeAppend 1 8,
+                              .load 9, .storeTake 9 2]
+    s.enqueued = [7, 8] ∧ s.delivered = [7, 7, 8] := by decide
+
+/-! non-vacuity: a concrete two-producer / one-consumer schedule -/
+example :
+    let ts : List (List (QOp (Nat × Nat))) :=
+      [[.enqueue (0, 1), .enqueue (0, 2)], [.enqueue (1, 1), .enqueue (1, 2)], [.checkin true, .checkin true]]
+    let s := qrun (fun _ => 1) (interleave ts [1, 0, 2, 0, 1, 2, 2])
+    s.delivered = [(1, 1), (0, 1), (0, 2), (1, 2)] ∧ WellTagged ts := by
+  refine ⟨by decide, ?_⟩
+  intro i t hi x hx
+  match i, hi with
+  | 0, hi => simp at hi; subst hi; simp at hx; rcases hx with rfl | rfl <;> rfl
+  | 1, hi => simp at hi; subst hi; simp at hx; rcases hx with rfl | rfl <;> rfl
+  | 2, hi => simp at hi; subst hi; simp at hx
+  | n + 3, hi => simp at hi
+
 
 /-! non-vacuity -/
 example : (qrun (fun (n : Nat) => n) [.enqueue 5, .enqueue 31457280, .checkin true, .enqueue 1,
